@@ -31,6 +31,24 @@ ASSUMPTIONS = ["pixels that are not 'unambiguous' are only subject to oracles 1,
 AX = "xyz"
 
 
+def cli_slice(ctx, path, req, limit, serial, outfile, cn, pos):
+    """The same request through the command line entry point (array format)."""
+    from amr_kitchen.mandoline import cli
+    from ..core import run_tool
+    argv = ["mandoline", path, "-f", "array", "-v", *req, "-V", "0", "-o", outfile, "-n", str(cn)]
+    if limit is not None:
+        argv += ["-L", str(limit)]
+    if pos is not None:
+        argv += ["--position=" + repr(float(pos))]
+    if serial:
+        argv += ["-s"]
+    o = run_tool(ctx, cli.main, cwd=ctx.scratch, argv=argv, label=f"mandoline {argv[1:]}")
+    if o.ok:
+        with np.load(outfile + ".npz", allow_pickle=True) as z:
+            o.value = {k: z[k] for k in z.files}
+    return o
+
+
 def run_case(ctx):
     src = ctx.src
     common.draw_env(ctx)
@@ -40,7 +58,7 @@ def run_case(ctx):
     limit = src.draw("limit.v", 0, m.nlev - 1) if src.flag("limit") else None
     L = m.nlev - 1 if limit is None else limit
     ax = AX[cn]
-    core_fields = [f"aff_{ax}", f"cst_{ax}", "rnd", "grid_level"]
+    core_fields = [f"aff_{ax}", f"cst_{ax}", "rnd", "ext", "grid_level"]
     extra = [f for f in m.fields if f not in core_fields]
     k = src.draw("fields.mode", 0, 3)
     if k == 0:
@@ -48,7 +66,7 @@ def run_case(ctx):
     elif k == 1:
         req = ["all"]
     elif k == 2:
-        idx = src.subset("fields.core", 4, min_size=1)
+        idx = src.subset("fields.core", 5, min_size=1)
         req = [core_fields[i] for i in idx]
     else:
         req = [extra[src.draw("fields.x", 0, len(extra) - 1)]] + list(core_fields)
@@ -74,11 +92,16 @@ def run_case(ctx):
     sig["pos"] = pkind
     results = {}
     p0 = ctx.poison
+    use_cli = fformat == "array" and bool(src.draw("cli", 0, 1))
+    sig["entry"] = "cli" if use_cli else "api"
     for tag, serial, poison in (("pool/poisonA", False, p0), ("pool/poisonB", False, (p0 + 2) % 5),
                                 ("serial/poisonA", True, p0)):
         ctx.poison = poison
         outfile = os.path.join(ctx.scratch, "out_" + tag.replace("/", "_"))
-        o = slice_call(ctx, path, req, limit, serial, fformat, outfile, cn, pos)
+        if use_cli:
+            o = cli_slice(ctx, path, req, limit, serial, outfile, cn, pos)
+        else:
+            o = slice_call(ctx, path, req, limit, serial, fformat, outfile, cn, pos)
         if not o.ok:
             raise Violation({**sig, "oracle": "slice-raises", **o.exc_sig()},
                             f"slice ({tag}) raised {o.exc!r}; normal={cn} pos={pos} ({pkind}) fields={req} limit={limit} "
@@ -151,7 +174,8 @@ def run_case(ctx):
                             f"{an} at pixel {bad} is {got[bad]!r}, a field affine along the normal must give {val!r} "
                             f"(finest level containing the point there: {lstar[bad]}); {what}")
     # ---- (2) exact bracketing at unambiguous pixels
-    for fname, fidx in ((f"cst_{ax}", m.fields.index(f"cst_{ax}")), ("rnd", m.fields.index("rnd"))):
+    for fname, fidx in ((f"cst_{ax}", m.fields.index(f"cst_{ax}")), ("rnd", m.fields.index("rnd")),
+                        ("ext", m.fields.index("ext"))):
         if fname not in names:
             continue
         got = np.asarray(out[fname]).T
@@ -177,7 +201,10 @@ def run_case(ctx):
             else:
                 nl = lo + (kl + 0.5) * m.dx[lv][cn]
                 nr = lo + (kr + 0.5) * m.dx[lv][cn]
-                want = (vl * (nr - pos) + vr * (pos - nl)) / (nr - nl)
+                with np.errstate(all="ignore"):
+                    want = (vl * (nr - pos) + vr * (pos - nl)) / (nr - nl)
+            if fname == "ext" and exact:
+                continue
             sel = mand.upsample(hl & hr, fac) & (lstar == lv)
             for l2 in range(lv + 1, L + 1):
                 sel &= ~near[l2]
@@ -186,7 +213,7 @@ def run_case(ctx):
             wantf = mand.upsample(want, fac)
             # 1e-12 relative also on cell centres: a neighbouring box exactly half a cell away may
             # legitimately contribute a zero-weight sample, which costs an ulp
-            okm = np.abs(got[sel] - wantf[sel]) <= 1e-11 * np.abs(wantf[sel])
+            okm = mand.close(got[sel], wantf[sel], 1e-11)
             checked += int(sel.sum())
             if not okm.all():
                 bad = tuple(np.argwhere(sel)[np.argwhere(~okm)[0][0]])
